@@ -260,12 +260,17 @@ func (b *builder) buildEnvs() error {
 
 // buildLogDir builds the log directory for the DAG.
 func (b *builder) buildLogDir() (err error) {
-	logDir, err := substituteCommands(os.ExpandEnv(b.def.LogDir))
-	if err != nil {
-		return err
+	logDir := os.ExpandEnv(b.def.LogDir)
+	if !b.opts.noEval {
+		// Command substitution is done only when the DAG is loaded for
+		// execution.
+		logDir, err = substituteCommands(logDir)
+		if err != nil {
+			return err
+		}
 	}
 	b.dag.LogDir = logDir
-	return err
+	return nil
 }
 
 // buildParams builds the parameters for the DAG.
